@@ -62,6 +62,11 @@ def gen_cases(rng, tier):
         nres = rng.randint(0, 3)
         pk = [[{'a': j, 'v': enc(gen_value(rng, 1))} for j in range(rng.randint(0, 4))] for _ in range(nres)]
         cases.append({'kind': 'stream', 'pkg': pk})
+    for asc in (True, False):
+        cases.append({'kind': 'locale', 'ascii': asc})
+    # a resource without fields (its rows are empty dicts, written as the line {}) in front of, between and behind ordinary ones
+    for pk in ([[{}, {}, {}], [{'a': 1, 'v': enc('x')}]], [[{'a': 1, 'v': enc('x')}], [{}], [{'a': 2, 'v': enc('y')}, {'a': 3, 'v': enc(None)}]], [[{}, {}]]):
+        cases.append({'kind': 'stream', 'pkg': pk})
     for i in range({'quick': 14, 'thorough': 120, 'search': 50}[tier]):
         h = [rng.pick(['run', 'run', 'delete']) for _ in range(rng.randint(2, 6))]
         h[0] = 'run'
@@ -197,8 +202,31 @@ def mk_flow(case, d, log, switch=None):
     return Flow(*steps)
 
 
+LOCALE_CHILD = '''
+import json, shutil
+from dataflows import Flow, checkpoint
+d = %(dir)r
+shutil.rmtree(d, ignore_errors=True)
+log = []
+def up(rows):
+    log.append('up')
+    yield from rows
+def run():
+    del log[:]
+    r = Flow([{'a': 1, 'v': 'caf' + chr(233) + ' ' + chr(9731)}, {'a': 2, 'v': chr(26085) + chr(26412)}], up, checkpoint('c' + chr(233) * %(nonascii_name)d, checkpoint_path=d)).results()
+    return [r[0], [f['name'] for f in r[1].descriptor['resources'][0]['schema']['fields']], list(log)]
+print('RESULT ' + json.dumps([run(), run()]))
+'''
+
+
 def run_impl(case):
     k = case['kind']
+    if k == 'locale':
+        # the first run and the resumed run by an interpreter whose default text encoding is ASCII
+        d = os.path.join(scratch(), 'loc_%s' % digest(case))
+        got, err = child_python(LOCALE_CHILD % {'dir': d, 'nonascii_name': 0}, ascii_locale=case['ascii'])
+        shutil.rmtree(d, ignore_errors=True)
+        return {'got': got, 'err': err}
     if k == 'value':
         v = dec(case['value'])
         try:
@@ -211,6 +239,9 @@ def run_impl(case):
         f = os.path.join(scratch(), 's_%s.ndjson' % digest(case))
         res = [{'name': 'r%d' % i, 'fields': [{'name': 'a', 'type': 'integer'}, {'name': 'v', 'type': 'any'}], 'rows': rows_dec(rows)}
                for i, rows in enumerate(case['pkg'])]
+        for i, rows in enumerate(case['pkg']):
+            if rows and all(r == {} or r == {'$obj': []} for r in rows):
+                res[i]['fields'] = []          # a table with no fields at all: its rows are empty dicts
         with quiet():
             Flow(Src(res), DF.stream(f)).process()
             lines = open(f).read().split('\n')
@@ -259,6 +290,17 @@ def run_impl(case):
 
 def oracle(case, out):
     k = case['kind']
+    if k == 'locale':
+        what = 'a checkpointed flow over non-ASCII text, run twice by an interpreter with %s default text encoding' % ('an ASCII' if case['ascii'] else 'the usual')
+        if out['got'] is None:
+            return '%s failed: %s' % (what, out['err'][-250:])
+        want = [{'a': 1, 'v': 'caf\u00e9 \u2603'}, {'a': 2, 'v': '\u65e5\u672c'}]
+        (r1, f1, l1), (r2, f2, l2) = out['got']
+        if r1 != [want] or r2 != [want] or f1 != f2:
+            return '%s: first run %r, resumed run %r' % (what, r1, r2)
+        if l1 != ['up'] or l2 != []:
+            return '%s: steps before the checkpoint ran %r in the first and %r in the second run' % (what, l1, l2)
+        return None
     if k == 'value':
         if 'error' in out:
             return 'extended JSON failed on a value it claims: %s' % out['exc']
